@@ -22,7 +22,15 @@ Trace_Cache.tla / Trace_StaticCache.tla (code -> spec).
    RwLock<Cache>, events logged under the guard; handler-level runs of file_handler / directory_handler
    with files rewritten between requests; a run on the unmodified wall clock with real sleeps.  Every log
    is replayed by TLC (Trace_Cache / Trace_StaticCache) with all invariants evaluated.
-5. Self-test of the binding on every run: one corrupted edge, one corrupted cache log record and one
+5. The property by itself: Trace_CacheProp.tla / Trace_StaticProp.tla state C16 on a recorded history
+   without any eviction policy (coherent hits, immediate retrievability, existence of a retention
+   schedule within the size limit; bounded staleness of handler responses).  Every log is also judged
+   by them, and they adjudicate: when the implementation model (Cache.tla) cannot explain what the code
+   did, the observed histories (a seeded sample of up to 2000 mismatching sequences, panics first) are
+   judged against the property alone - rejected => VIOLATION; accepted => the code still satisfies C16 but
+   no longer evicts like the model (MODEL-DRIFT note, no violation).  Thorough: TLC simulates behaviours
+   of the seven faulty models and the judge must reject each of them (and accept Dev = {}).
+6. Self-test of the binding on every run: one corrupted edge, one corrupted cache log record and one
    corrupted handler log record must be rejected (otherwise exit 2).
 
 Clock: Cache calls SystemTime::now() itself.  The harness binary overrides libc's clock_gettime for
@@ -114,6 +122,73 @@ def rejected_info(t):
     return at, (rej[-1]["event"] if rej else None), pred[:3]
 
 
+def judge(module, path, name):
+    """property-only judge; returns (accepted, rejects)"""
+    t = run_tlc(module + ".tla", module + ".cfg", D, workers=1, env={"TRACE": path}, timeout=1500, work_id="c16-judge-" + name)
+    rej = []
+    for x in t.prints:
+        if isinstance(x, dict) and "property_rejects" in x:
+            rej += x["property_rejects"]
+    return t, (t.violation is None), rej
+
+
+def adjudicate_sequences(ctx, cache, label, limit, tl, unit, s, wd):
+    """A graph replay disagreed with the real Cache.  Let TLC judge what the code actually did."""
+    seqs = [m["ops"] for m in s["first"]] + s.get("sampled", [])
+    inp = "\n".join(json.dumps(q) for q in seqs) + "\n"
+    p = run_bin(cache, ["runseq", str(limit), str(tl), str(unit), "trace"], stdin_data=inp)
+    if p.returncode != 0:
+        raise vlib.ToolError("cache runseq trace failed: " + p.stderr[-800:])
+    path = os.path.join(wd, "adjudicate-%s.ndjson" % label)
+    with open(path, "w") as f:
+        f.write(p.stdout)
+    events = [json.loads(x) for x in p.stdout.splitlines() if x.startswith("{")]
+    tj, ok, rej = judge("Trace_CacheProp", path, label)
+    ctx.add_tlc("property judge on %d observed histories of mismatching sequences (%s)" % (len(seqs), label), tj)
+    first = s["first"][0]
+    if not ok:
+        at = rej[0]["at"]
+        lo = max(i for i in range(at) if events[i]["ev"] == "reset")
+        hi = min([i for i in range(at, len(events)) if events[i]["ev"] == "reset"] + [len(events)])
+        ctx.violation("%s: the real Cache differs from the model AND the observed history breaks C16 (%s) at %s; first model mismatch: %s"
+                      % (label, rej[0]["why"], json.dumps(rej[0]["event"]), json.dumps(first)),
+                      {"kind": "cache-trace", "module": "Trace_CacheProp.tla", "cfg": "Trace_CacheProp.cfg", "events": events[lo:hi],
+                       "property_rejects": rej[:5], "model_mismatch": first})
+        return
+    # the property holds on everything sampled: is it the model or my plumbing that is off?
+    ts = validate_trace("Trace_Cache.tla", "Trace_Cache.cfg", path, "adj-" + label)
+    if ts.violation is None:
+        raise vlib.ToolError("%s: the graph replay reports mismatches (%s) but TLC's own replay of the observed histories with Cache.tla "
+                             "accepts them: inconsistency inside the check, not in the code" % (label, json.dumps(first)))
+    msg = ("MODEL-DRIFT property=C16 %s: the real Cache no longer behaves like spec/cache/Cache.tla (first difference: %s) but all %d sampled "
+           "observed histories satisfy C16 as judged by Trace_CacheProp; not a violation - the model needs updating" % (label, json.dumps(first), len(seqs)))
+    print(msg, flush=True)
+    ctx.add_part("MODEL_DRIFT " + label, mismatches=s["mismatches"], histories_judged=len(seqs), first=first)
+    ctx.assumptions.append(msg)
+
+
+def adjudicate_log(ctx, name, module, cfg, path, evs, t):
+    """A recorded log was rejected by the implementation model.  Judge it against the property alone."""
+    jm = "Trace_CacheProp" if module == "Trace_Cache.tla" else "Trace_StaticProp"
+    tj, ok, rej = judge(jm, path, "adj")
+    ctx.add_tlc("property judge on rejected log: " + name, tj)
+    at, ev, pred = rejected_info(t)
+    if ok:
+        msg = ("MODEL-DRIFT property=C16 %s: the log is not a behaviour of the implementation model (record %s: %s; model predicts %s) "
+               "but satisfies C16 as judged by %s; not a violation - the model needs updating" % (name, at, json.dumps(ev), json.dumps(pred)[:400], jm))
+        print(msg, flush=True)
+        ctx.add_part("MODEL_DRIFT " + name, rejected_at=at, event=ev, model=pred)
+        ctx.assumptions.append(msg)
+        return
+    rat = rej[0]["at"]
+    lo = max([i for i in range(rat) if evs[i]["ev"] == "reset"] + [0])
+    hi = min([i for i in range(rat, len(evs)) if evs[i]["ev"] == "reset"] + [len(evs)])
+    ctx.violation("%s: the log breaks C16 (%s) at record %d: %s; implementation model: rejected at record %s, predicts %s"
+                  % (name, rej[0].get("why", "handler response"), rat - lo, json.dumps(rej[0]["event"]), at, json.dumps(pred)[:500]),
+                  {"kind": "cache-trace", "module": jm + ".tla", "cfg": jm + ".cfg", "events": evs[lo:hi], "property_rejects": rej[:5],
+                   "model_rejected_at": at, "model_predicts": pred})
+
+
 def do_replay(cache_bin, path):
     obj = json.load(open(path))
     case = obj.get("case", obj)
@@ -142,6 +217,15 @@ def do_replay(cache_bin, path):
         wd = vlib.workdir("C16")
         tr = os.path.join(wd, "replay.ndjson")
         vlib.write_lines(tr, case["events"])
+        if case["module"].startswith("Trace_CacheProp") or case["module"].startswith("Trace_StaticProp"):
+            t, ok, rej = judge(case["module"][:-4], tr, "replay")
+            os.remove(tr)
+            if not ok:
+                print("the property judge rejects: %s" % json.dumps(rej[:3]))
+                print("VIOLATION property=C16 replay=%s" % path)
+                return 1
+            print("not reproduced: the history satisfies C16")
+            return 0
         t = validate_trace(case["module"], case["cfg"], tr, "replay")
         os.remove(tr)
         if t.violation:
@@ -261,8 +345,7 @@ def run(tier, replay):
                      one_step_probes=s["probes"], cache_calls=s["calls"], lookups_compared=s["gets"], longest_path=s["max_path"],
                      nontrivial_edges=s["nontrivial"], mismatches=s["mismatches"])
         if s["mismatches"]:
-            ctx.violation("graph %s: %d edge replays disagree with the real Cache; first: %s" % (g, s["mismatches"], json.dumps(s["first"][0])),
-                          {"kind": "cache-seq", "graph": g, "mismatch": s["first"][0], "more": s["first"][1:]})
+            adjudicate_sequences(ctx, cache, "graph " + g, limit, tl, unit, s, wd)
     # observation: set larger than the limit (never a violation)
     s = harness_json(run_bin(cache, ["edges", os.path.join(wd, "over.edges"), "2", "1", "1", "2"]), "cache edges over")
     ctx.add_part("observation_oversize_set", edges=s["edges"], as_modelled=(s["mismatches"] == 0),
@@ -289,8 +372,7 @@ def run(tier, replay):
                      graph_states=s["graph_states"], graph_edges=s["graph_edges"], nontrivial_prefixes=s["nontrivial"],
                      mismatches=s["mismatches"])
         if s["mismatches"]:
-            ctx.violation("lock-step %s: %d sequences disagree with the real Cache; first: %s" % (b, s["mismatches"], json.dumps(s["first"][0])),
-                          {"kind": "cache-seq", "graph": "ball" + b, "mismatch": s["first"][0], "more": s["first"][1:]})
+            adjudicate_sequences(ctx, cache, "lock-step " + b, limit, tl, unit, s, wd)
 
     # 5a. self-test: a corrupted edge must be noticed
     src = os.path.join(wd, "g3.edges")
@@ -368,12 +450,15 @@ def run(tier, replay):
 
     def val(fl):
         name, module, cfg, path, n, runs = fl
-        return fl, validate_trace(module, cfg, path, "tr%d" % abs(hash(name)), timeout=1500)
+        t = validate_trace(module, cfg, path, "tr%d" % abs(hash(name)), timeout=1500)
+        tj, ok, rej = judge("Trace_CacheProp" if module == "Trace_Cache.tla" else "Trace_StaticProp", path, "lg%d" % abs(hash(name)))
+        return fl, t, (tj, ok, rej)
 
     hits = 0
     with cf.ThreadPoolExecutor(max_workers=4) as ex:
-        for (name, module, cfg, path, n, runs), t in ex.map(val, files):
+        for (name, module, cfg, path, n, runs), t, (tj, jok, jrej) in ex.map(val, files):
             ctx.add_tlc("trace validation: " + name, t, note="%d records" % n)
+            ctx.add_tlc("property judge: " + name, tj, note="%d records" % n)
             ctx.cov["evaluations"] += n
             ctx.cov["traces_validated_against_impl"] += runs
             evs = [json.loads(x) for x in open(path) if x.startswith("{")]
@@ -395,18 +480,11 @@ def run(tier, replay):
                 for e in [x for x in evs if x["ev"] in ("get", "end") and x.get("hit", True)][:1]:
                     ctx.sample({"kind": "logged record accepted by TLC (%s)" % name, "record": e})
             if t.violation:
-                at, ev, pred = rejected_info(t)
-                lo = 0
-                if at:
-                    # keep the run that contains the rejected record (from its reset on)
-                    for i in range(at - 1, -1, -1):
-                        if evs[i]["ev"] == "reset":
-                            lo = i
-                            break
-                ctx.violation("%s: the log is not a behaviour of the specification; %s at record %s: %s; the model predicts %s"
-                              % (name, t.violation, at, json.dumps(ev), json.dumps(pred)[:600]),
-                              {"kind": "cache-trace", "module": module, "cfg": cfg, "rejected_at": (at - lo) if at else None,
-                               "event": ev, "model": pred, "events": evs[lo:(at + 20 if at else len(evs))]})
+                adjudicate_log(ctx, name, module, cfg, path, evs, t)
+            elif not jok:
+                # the implementation model explains the log but the property judge does not: the two
+                # specifications disagree with each other, which is a defect of the check
+                raise vlib.ToolError("%s: accepted by %s but rejected by the property judge: %s" % (name, module, json.dumps(jrej[:2])))
     ctx.add_part("recorded executions", logs=len(files), handler_requests=hreq, nontrivial_records=hits,
                  random_runs=sum(f[5] for f in files if f[0].startswith("random")), ops_per_run=nops)
 
@@ -431,6 +509,35 @@ def run(tier, replay):
             raise vlib.ToolError("self-test: log %s with record %d corrupted was not rejected there (violation=%s at=%s)"
                                  % (name, i + 1, t.violation, at))
         ctx.add_part("self-test corrupted record in " + name, rejected_at=at, corrupted=i + 1)
+
+    # 5c. (thorough) behaviours of the faulty models, simulated by TLC, must be rejected by the property judge
+    if thorough:
+        def sim(dev):
+            r = run_tlc("Sim_Cache.tla", "Sim_Cache_%s.cfg" % dev, D, workers=1, simulate=60, depth=70, seed_val=vlib.seed(), timeout=900,
+                        work_id="c16-sim-" + dev)
+            recs = []
+            n = 0
+            for line in io.StringIO(r.out):
+                if line.startswith('"T[') and n < 400:
+                    recs += json.loads(json.loads(line)[1:])
+                    n += 1
+            path = os.path.join(wd, "sim-%s.ndjson" % dev)
+            vlib.write_lines(path, recs)
+            tj, ok, rej = judge("Trace_CacheProp", path, "sim" + dev)
+            return dev, n, len(recs), ok, rej, tj
+        with cf.ThreadPoolExecutor(max_workers=4) as ex:
+            for dev, n, nrec, ok, rej, tj in ex.map(sim, ["none"] + [d for d, _ in INV_OF_DEV]):
+                ctx.add_tlc("property judge on %d simulated behaviours of Dev={%s}" % (n, "" if dev == "none" else dev), tj)
+                if n == 0:
+                    raise vlib.ToolError("simulation of Dev=%s produced no behaviour" % dev)
+                if dev == "none" and not ok:
+                    raise vlib.ToolError("the property judge rejects behaviours of the fault-free model: %s" % json.dumps(rej[:2]))
+                # NoSubOnReplace only over-evicts until the drifting counter makes a set panic; with sizes {0,1,2} and 40 records
+                # that needs a particular pattern, so it is reported, not required
+                if dev not in ("none", "NoSubOnReplace") and ok:
+                    raise vlib.ToolError("the property judge accepts %d simulated behaviours of the faulty model %s" % (n, dev))
+                ctx.add_part("judge sensitivity " + dev, behaviours=n, records=nrec, rejected=(not ok),
+                             reasons=sorted(set(x["why"] for x in rej)))
 
     shutil.rmtree(wd, ignore_errors=True)
     ctx.cov["rule"] = ("edges: every transition of TLC's complete state graphs, each replayed from a fresh real Cache and followed by every "
